@@ -691,4 +691,26 @@ theorem isortBy_id (l : List Nat) : isortBy id l = isort l := by
     | cons b m ihm => simp only [insertByKey, insertSorted, id, ihm]
 
 
+
+theorem runGuarded_finally_restores (f forced : String) (body : State → State × Exit) (st : State) :
+    (runGuarded .finallyBlock f forced body st).1 f = st f := by
+  unfold runGuarded
+  simp only
+  split
+  · simp
+  · next h => cases h
+  · simp
+
+theorem runGuarded_other_fields (place : RestorePlace) (f forced : String) (body : State → State × Exit) (st : State)
+    (g : String) (hg : g ≠ f) : (runGuarded place f forced body st).1 g = (body (update st f forced)).1 g := by
+  unfold runGuarded
+  simp only
+  split <;> simp [hg]
+
+theorem runGuarded_exit (place : RestorePlace) (f forced : String) (body : State → State × Exit) (st : State) :
+    (runGuarded place f forced body st).2 = if (body (update st f forced)).2 = .otherException then .otherException else .normal := by
+  unfold runGuarded
+  cases place <;> cases h : (body (update st f forced)).2 <;> simp [h]
+
+
 end SqlglotModel.Determinism
